@@ -20,7 +20,7 @@ ASSUMPTIONS = ["numpy.fft is the reference DFT", "tolerance 1e-9*max(1,max|ref|)
 def s_case(draw):
     big = draw(st.integers(0, 9)) == 0
     huge = draw(st.integers(0, 59 if os.environ.get("VF_TIER") == "thorough" else 499)) == 0
-    n = draw(st.sampled_from([131072, 100003, 2 ** 17 + 1])) if huge else \
+    n = draw(st.sampled_from([131072, 100003, 2 ** 17 + 1, 2 ** 18 + 1, 300000, 2 ** 19 + 7])) if huge else \
         draw(st.sampled_from([2048, 4096, 4095, 2047, 8191])) if big else draw(st.one_of(st.sampled_from(LENGTHS), st.integers(1, 300)))
     x = draw(s_signal(n=n, fams=["gauss", "unif", "smallint", "spike", "const", "lead0", "alt", "periodic", "sorted", "sym"]))
     # units: amplitudes over 18 decades; "weakq": an O(1) real waveform with a quadrature component of 1e-12..1e-6
@@ -42,7 +42,7 @@ def eq(a, b, tag, what):
 
 def e_case(c):
     reset()
-    sps, R, fs = apply_gv(c["gv"])
+    sps, R, fs = apply_gv(c["gv"], c["x"]["sig"]["n"])
     x, m = build(c["x"])
     sc, wq = c["x"].get("scale", 1.0), c["x"].get("weakq", 0.0)
     if sc != 1.0 or wq:
@@ -121,6 +121,19 @@ def e_case(c):
     for obj, nm in ((Xw, "x('w')"), (xt, "x('t')"), (Xs, "x('w',True)"), (xs, "x('t',True)")):
         g.no_alias([(nm + ".signal", obj.signal), (nm + ".noise", obj.noise)])
     g.release()
+    # the samples of the SAME object edited in place (as the library's own devices do with their outputs): the transforms, the
+    # axis and the power follow the content now held (nothing may be remembered from the calls above)
+    if N >= 2 and x.signal.dtype.kind in "fc":
+        for arr in (x.signal, x.noise):
+            if arr is not None:
+                arr[..., N // 2] = arr[..., N // 2] * 3 + (1 if arr.dtype.kind != "c" else 1 - 2j) * sc
+                arr[..., 0] = 0
+        for nm in ("signal",) + (("noise",) if x.noise is not None else ()):
+            arr = getattr(x, nm)
+            eq(getattr(lib(x, "w"), nm), fft(arr, axis=-1), "transform-of-stale-content", f"x('w').{nm} after x.{nm} was edited in place")
+            eq(getattr(lib(x, "t", True), nm), ifftshift(ifft(arr, axis=-1), axes=-1), "transform-of-stale-content", f"x('t',True).{nm} after an in-place edit")
+        tot2 = x.signal if x.noise is None else x.signal + x.noise
+        check(np.allclose(lib(x.power), np.mean(np.abs(tot2) ** 2, axis=-1), rtol=1e-12, atol=1e-300), "power-of-stale-content", "")
     nt = (N >= 3 and N % 2 == 1) or (m.npol == 2 and m.n is not None) or fs != 16e9
     return {"nontrivial": bool(nt), "classes": [c["x"]["cls"] + str(m.npol), "odd" if N % 2 else "even", "N1" if N == 1 else "N2" if N == 2 else "N>2",
                                                  "noise" if m.n is not None else "clean", c["gv"]["form"], "huge" if N > 50000 else "big" if N > 1000 else "small", c["x"]["sig"]["dt"], f"scale{sc:g}", "weakq" if wq else "plain"]}
